@@ -66,8 +66,99 @@ var seqThens = []int{KProcExit0, KProcExit3, KClose0, KClose7, KPanicError, KUnr
 const (
 	KSeq0     = NKinds
 	nSeq      = nSeqFirsts * 6
-	NAllKinds = NKinds + nSeq
+	KLnk0     = KSeq0 + nSeq // linked-instance kinds (only for the l* shapes): poke+<then> and closego
+	nLnk      = 10
+	KLnkClose = KLnk0 + nLnk - 1 // Module.Close by the embedder
+	NAllKinds = NKinds + nSeq + nLnk
 )
+
+// lnkThens: how poke_<then>(k) of a linked instance ends (after its writes to the linked memory / global).
+var lnkThens = []int{KOk, KProcExit0, KProcExit3, KClose0, KClose7, KPanicError, KUnreachable, KOk, KProcExit3}
+
+// lnkGrows: the kinds from this index on execute memory.grow(1) on the linked memory before they end (grow+ok,
+// grow+procexit3): the unshared memory (1..2 pages) grows once - its buffer is reallocated - and then stays; the
+// shared one (max 1 page) cannot grow.
+const lnkGrows = 7
+
+func isLnk(k int) bool { return k >= KLnk0 && k < KLnk0+nLnk }
+
+// cells of the linked memory (written by poke_<then>(k) of whichever instance of the family runs)
+const (
+	LCellPre  = 64 // k, before the end of the function
+	LCellPost = 72 // k, after it
+	LCellTab  = 80 // result of call_indirect through the linked table (element 0 = the owner's function: 7)
+)
+
+// buildL emits a module of a linked family: the owner defines and exports a memory (unshared 1..2 pages, or
+// shared 1 page), a funcref table whose element 0 is its own function seven() and a mutable global; an importer
+// imports the three from the owner. Both import H.panic, H.close and proc_exit and export
+//
+//	poke_<then>(k) -> gl : mem[64] = k ; gl += 1 ; mem[80] = call_indirect table[0] ; <then> ; mem[72] = k
+//	peek() -> mem[64]
+func buildL(owner bool, shared bool, ownerName string) []byte {
+	m := &wb.Module{}
+	i32 := wb.I32
+	hp := m.ImportFunc(hostModName, "panic", []byte{i32}, nil)
+	hc := m.ImportFunc(hostModName, "close", []byte{i32}, nil)
+	pe := m.ImportFunc(wasiModName, "proc_exit", []byte{i32}, nil)
+	lim := wb.Limits{Min: 1, Max: 2, HasMax: true}
+	if shared {
+		lim = wb.Limits{Min: 1, Max: 1, HasMax: true, Shared: true}
+	}
+	tab := wb.Table{Elem: wb.FuncRef, Lim: wb.Limits{Min: 2, Max: 2, HasMax: true}}
+	var gl uint32
+	if owner {
+		m.Mem = &lim
+		m.Tables = []wb.Table{tab}
+		gl = m.AddGlobal(i32, true, wb.CI32(0))
+		m.Exports = append(m.Exports,
+			wb.Export{Name: "memory", Kind: wb.KindMemory, Idx: 0},
+			wb.Export{Name: "table", Kind: wb.KindTable, Idx: 0},
+			wb.Export{Name: "gl", Kind: wb.KindGlobal, Idx: gl})
+	} else {
+		m.Imports = append(m.Imports,
+			wb.Import{Module: ownerName, Name: "memory", Kind: wb.KindMemory, Mem: lim},
+			wb.Import{Module: ownerName, Name: "table", Kind: wb.KindTable, Table: tab},
+			wb.Import{Module: ownerName, Name: "gl", Kind: wb.KindGlobal, GlobalType: i32, GlobalMut: true})
+		gl = 0
+	}
+	sevenT := m.Type(nil, []byte{i32})
+	seven := m.AddFunc(nil, []byte{i32}, nil, (&wb.Asm{}).I32Const(7).B)
+	m.FuncNames = map[uint32]string{seven: "seven"}
+	if owner {
+		m.Elems = []wb.Elem{{Mode: 0, Offset: wb.CI32(0), Funcs: []uint32{seven}}}
+	}
+	for i, then := range lnkThens {
+		a := (&wb.Asm{}).I32Const(LCellPre).LocalGet(0).Mem(0x36, 2, 0)
+		a.GlobalGet(gl).I32Const(1).Op(0x6a).GlobalSet(gl)
+		a.I32Const(LCellTab).I32Const(0).CallIndirect(sevenT, 0).Mem(0x36, 2, 0)
+		if i >= lnkGrows {
+			a.I32Const(1).MemoryGrow().Drop()
+		}
+		switch then {
+		case KProcExit0:
+			a.I32Const(0).Call(pe)
+		case KProcExit3:
+			a.I32Const(3).Call(pe)
+		case KClose0:
+			a.I32Const(0).Call(hc)
+		case KClose7:
+			a.I32Const(7).Call(hc)
+		case KPanicError:
+			a.I32Const(KPanicError).Call(hp)
+		case KUnreachable:
+			a.Unreachable()
+		}
+		a.I32Const(LCellPost).LocalGet(0).Mem(0x36, 2, 0).GlobalGet(gl)
+		idx := m.AddFunc([]byte{i32}, []byte{i32}, nil, a.B)
+		m.ExportFunc(fmt.Sprintf("poke%d", i), idx)
+		m.FuncNames[idx] = "poke_" + kindNames[KLnk0+i]
+	}
+	pk := m.AddFunc(nil, []byte{i32}, nil, (&wb.Asm{}).I32Const(LCellPre).Mem(0x28, 2, 0).B)
+	m.ExportFunc("peek", pk)
+	m.FuncNames[pk] = "peek"
+	return m.Encode()
+}
 
 func isSeq(k int) bool { return k >= KSeq0 && k < KSeq0+nSeq }
 func seqParts(k int) (first, then int) {
@@ -228,6 +319,18 @@ var kindNames = func() (n [NAllKinds]string) {
 	for i := 0; i < nSeq; i++ {
 		n[KSeq0+i] = seqFirstNames[i/len(seqThens)] + "+" + kindNames0(seqThens[i%len(seqThens)])
 	}
+	for i, then := range lnkThens {
+		what := "poke+"
+		if i >= lnkGrows {
+			what = "grow+"
+		}
+		if then == KOk {
+			n[KLnk0+i] = what + "ok"
+		} else {
+			n[KLnk0+i] = what + kindNames0(then)
+		}
+	}
+	n[KLnkClose] = "closego"
 	for i, s := range n {
 		if s == "" {
 			panic(fmt.Sprint("kind without a name: ", i))
